@@ -361,8 +361,22 @@ func runParse(c *h.Ctx, pc ParseCase) {
 		if got.String() != pc.S {
 			c.Fail("C15/parse/unchanged", "Parse(%q).String() = %q", pc.S, got.String())
 		}
-		if !eqStrs(got.Segments(), refSegments(pc.S)) {
-			c.Fail("C15/segments", "Segments(%q) = %q", pc.S, got.Segments())
+		segs := got.Segments()
+		if !eqStrs(segs, refSegments(pc.S)) {
+			c.Fail("C15/segments", "Segments(%q) = %q", pc.S, segs)
+		}
+		// the slice handed back is the caller's: writing to it must not change what the command (or an equal
+		// command obtained later) reports
+		for i := range segs {
+			segs[i] = "scribbled"
+		}
+		if again, err := command.Parse(pc.S); err == nil {
+			if !eqStrs(again.Segments(), refSegments(pc.S)) || !eqStrs(got.Segments(), refSegments(pc.S)) {
+				c.Fail("C15/segments/shared-with-caller", "after the caller wrote into the slice returned by Segments(), Segments(%q) = %q", pc.S, again.Segments())
+			}
+			if len(segs) > 0 && !again.Covers(got) {
+				c.Fail("C15/covers/reflexive", "%q does not cover itself after a caller wrote into an earlier Segments() result", pc.S)
+			}
 		}
 	}
 	if strings.Contains(pc.S, "/") {
